@@ -244,9 +244,11 @@ Proof.
             ?(A eq_refl), ?(B eq_refl); cbn; reflexivity.
 Qed.
 
-(* ---------- the transformer applies an entry ONCE (regression witness of the repaired double update) ---------- *)
-Lemma gen_image_transform_dedupes :
-  gen_image_transform_filters = 2 /\ gen_image_transform_shares_visited = true.
+(* ---------- the transformer applies an entry twice (legacy filter, then field-spec filter) ---------- *)
+(* the proposed repair (a Visited set shared by the two filters) was declined: the source still runs
+   both filters independently *)
+Lemma gen_image_transform_independent :
+  gen_image_transform_filters = 2 /\ gen_image_transform_shares_visited = false.
 Proof. split; reflexivity. Qed.
 
 Definition twice_doc : node :=
@@ -257,25 +259,17 @@ Definition twice_entry : image := mkImage "x" "" "-s" "" "".
 Definition twice_parse : string -> option re :=
   parse_of [("^x(:[a-zA-Z0-9_.{}-]*)?(@sha256:[a-zA-Z0-9_.{}-]*)?$", Some (img_re "x"))].
 
-(* one application gives x:1-s, and so does the transformer (it used to give x:1-s-s) *)
-Lemma image_suffix_once_regression :
+(* one application gives x:1-s; the transformer gives x:1-s-s *)
+Lemma image_suffix_twice_lemma :
   update_value twice_parse twice_entry "x:1" = Ok (Some "x:1-s") /\
   image_transform twice_parse twice_entry gen_images_fs [twice_doc] =
   Ok [Map [("kind", Scalar TStr SPlain "Pod");
            ("spec", Map [("containers", Seq [Map [("name", Scalar TStr SPlain "c");
-                                                  ("image", Scalar TNone SPlain "x:1-s")]])])]].
+                                                  ("image", Scalar TNone SPlain "x:1-s-s")]])])]].
 Proof. split; vm_compute; reflexivity. Qed.
 
-(* with the shared Visited set the result is, node by node, the legacy result where it differs from
-   the input and otherwise the field-spec result computed on the input *)
-Lemma image_transform_shares_visited parse im fss rs :
+(* the transformer is the legacy filter over every resource followed by the field-spec filter over every resource *)
+Lemma image_transform_sequential parse im fss rs :
   image_transform parse im fss rs =
-  (do rs1 <- mapM (legacy_filter parse im) rs;
-   do rsf <- mapM (image_fs_filter parse im fss) rs;
-   Ok (combine_list rs rs1 rsf)).
-Proof. unfold image_transform. destruct gen_image_transform_dedupes as [_ ->]. reflexivity. Qed.
-
-(* where the legacy scan changed nothing, the result is the field-spec result; where it changed a scalar, its result stands *)
-Lemma combine_scalar t s v l f :
-  combine (Scalar t s v) l f = if node_eqb l (Scalar t s v) then f else l.
-Proof. reflexivity. Qed.
+  (do rs1 <- mapM (legacy_filter parse im) rs; mapM (image_fs_filter parse im fss) rs1).
+Proof. unfold image_transform. destruct gen_image_transform_independent as [_ ->]. reflexivity. Qed.
